@@ -12,11 +12,15 @@
 (*        (FirstFailure), shutdown(wait=True) (JoinInner)                  *)
 (*   _write_serial (driver with one inner worker) : same per-tensor steps  *)
 (*   _locked_callback          outer callback lock (OCbAcq/OCbRel)         *)
-(*   user callback             CbRun                                       *)
+(*   user callback             CbRun / CbFail (it raises)                  *)
 (*   _write_tensor             per-tensor-OBJECT lock (TLock/TUnlock)      *)
 (*   _ByteBudget.acquire       AcqFit / AcqOver / AcqBlock, and for a      *)
 (*                             notified waiter WakeFit / WakeBlock         *)
-(*   tensor.tofile             Write (atomic; fails for a failing tensor)  *)
+(*   tensor.tofile             Write (atomic) / WriteFail (failing tensor) *)
+(*        WriteFail and CbFail do not depend on the KIND of the exception  *)
+(*        (cfg.fkind: RuntimeError, OSError, a BaseException that is not   *)
+(*        an Exception, KeyboardInterrupt, SystemExit): no action reads    *)
+(*        it, so ErrJoin & co. have to hold for every kind                 *)
 (*   _ByteBudget.release       Release (notify_all: every waiter is        *)
 (*                             re-evaluated)                               *)
 (*                                                                         *)
@@ -24,6 +28,22 @@
 (* the only "driver" (it runs _write_parallel itself) and its pool         *)
 (* workers are 1..ni.  With concurrent shards the drivers are 1..nd and    *)
 (* the inner workers of driver d are 10*d+1 .. 10*d+ni.                    *)
+(*                                                                         *)
+(* TWO WRITER KINDS share the per-tensor-object lock table (tlock), the    *)
+(* byte budget (with its single oversized slot) and, between concurrent    *)
+(* shards, the outer callback lock.  Their acquisition orders are those of *)
+(* the code:                                                               *)
+(*   serial writer (a shard driver running _write_serial, SerialWriterStep)*)
+(*       outer callback lock .. released, tensor lock, budget, write,      *)
+(*       budget release, tensor unlock                                     *)
+(*   pool worker of _write_parallel (PoolWriterStep)                       *)
+(*       inner callback lock, [outer callback lock ..], both released,     *)
+(*       files_lock .. released, tensor lock, budget, write, budget        *)
+(*       release, tensor unlock                                            *)
+(* Both take lock(T) BEFORE the bytes: that consistency is what makes a    *)
+(* tensor object shared between a serial shard and a parallel shard under  *)
+(* a tight budget deadlock free (ParallelWriterMC_weak.cfg swaps the order *)
+(* of the pool worker and TLC finds the deadlock).                         *)
 (*                                                                         *)
 (* The configuration is a (constant) variable so that one TLC run covers   *)
 (* many configurations and one JVM validates traces of many configurations.*)
@@ -51,7 +71,10 @@ RECURSIVE LayFrom(_, _, _)
 LayFrom(raw, a, i) == IF i > Len(raw.size) THEN a ELSE LayFrom(raw, LayStep(raw, a, i), i + 1)
 Layout(raw) == LayFrom(raw, [sh |-> <<>>, off |-> <<>>, cur |-> 1, sz |-> 0, cnt |-> 0], 1)
 
-\* raw = [size, obj, fail, cap, mw, maxShard]  (maxShard = 0: one file)
+\* raw = [size, obj, fail, cbfail, fkind, cap, mw, maxShard]  (maxShard = 0: one file)
+\*   fail   : tensor OBJECTS whose evaluation (tofile / tobytes / numpy) raises
+\*   cbfail : tensor INDICES for which the progress callback raises
+\*   fkind  : the kind of exception raised by both (a label: no action reads it)
 MkBase(raw) ==
   LET lay     == Layout(raw)
       ns      == lay.cur
@@ -60,6 +83,7 @@ MkBase(raw) ==
       nd      == IF sharded THEN PMin(raw.mw, ns) ELSE 1
       ni      == IF sharded THEN PMax(1, (raw.mw - nd) \div nd) ELSE raw.mw
   IN [n |-> Len(raw.size), size |-> raw.size, obj |-> raw.obj, fail |-> raw.fail,
+      cbfail |-> raw.cbfail, fkind |-> raw.fkind,
       cap |-> PMax(raw.cap, 1), mw |-> raw.mw, maxShard |-> raw.maxShard, ns |-> ns,
       shardOf |-> lay.sh, off |-> lay.off, sharded |-> sharded, nd |-> nd, ni |-> ni]
 
@@ -82,7 +106,8 @@ MkCfg(raw) ==
   LET c == MkBase(raw)
       drv == BDrv(c)
       wrk == UNION {BWrkOf(c, d) : d \in drv}
-  IN [n |-> c.n, size |-> c.size, obj |-> c.obj, fail |-> c.fail, cap |-> c.cap, mw |-> c.mw,
+  IN [n |-> c.n, size |-> c.size, obj |-> c.obj, fail |-> c.fail, cbfail |-> c.cbfail, fkind |-> c.fkind,
+      cap |-> c.cap, mw |-> c.mw,
       maxShard |-> c.maxShard, ns |-> c.ns, shardOf |-> c.shardOf, off |-> c.off,
       sharded |-> c.sharded, nd |-> c.nd, ni |-> c.ni,
       drv |-> drv, wrkOf |-> [d \in drv |-> BWrkOf(c, d)], wrk |-> wrk, thr |-> {0} \cup drv \cup wrk,
@@ -92,6 +117,10 @@ MkCfg(raw) ==
       objSize |-> [o \in {c.obj[i] : i \in 1..c.n} |-> c.size[CHOOSE i \in 1..c.n : c.obj[i] = o]],
       maxSize |-> BMaxSize(c), zero |-> BZeroFiles(c), serial |-> SerialFrom(c, BZeroFiles(c), 1)]
 
+\* does the configuration contain a tensor OBJECT shared between a serial shard and a parallel shard?
+MixedShared(c) ==
+  c.sharded /\ \E i, j \in 1..c.n : /\ c.obj[i] = c.obj[j]
+                                     /\ c.par[c.shardOf[i]] /\ ~c.par[c.shardOf[j]]
 Drv(c)      == c.drv
 WrkOf(c, d) == c.wrkOf[d]
 Wrk(c)      == c.wrk
@@ -268,21 +297,45 @@ OCbAcq(t) ==
 
 \* the user's progress callback runs
 CbRun(t) ==
-  /\ pc[t] = "inCb"
+  /\ pc[t] = "inCb" /\ task[t] \notin cfg.cbfail
   /\ cbCount' = [cbCount EXCEPT ![task[t]] = @ + 1]
   /\ pc' = [pc EXCEPT ![t] = IF cfg.sharded THEN "ocbRel" ELSE "icbRel"]
   /\ UNCHANGED <<cfg, task, vPool, exc, hasFile, vLocks, vBud, file>>
 
+\* the user's progress callback runs and raises (indices in cfg.cbfail) - whatever the KIND of the exception
+\* (cfg.fkind is not read): the `with` statements around the call release the callback lock(s) on the way out
+CbFail(t) ==
+  /\ pc[t] = "inCb" /\ task[t] \in cfg.cbfail
+  /\ cbCount' = [cbCount EXCEPT ![task[t]] = @ + 1]
+  /\ exc' = exc \cup {t}
+  /\ pc' = [pc EXCEPT ![t] = IF cfg.sharded THEN "ocbRel" ELSE "icbRel"]
+  /\ UNCHANGED <<cfg, task, vPool, hasFile, vLocks, vBud, file>>
+
+\* an exception leaves the loop of _write_serial (a shard driver): the tensors not yet written never are
+SerialRaise(t) ==
+  /\ tstat' = [i \in 1..cfg.n |->
+                 IF i = task[t] THEN "failed"
+                 ELSE IF \E k \in DOMAIN queue[t] : queue[t][k] = i THEN "cancelled"
+                 ELSE tstat[i]]
+  /\ queue' = [queue EXCEPT ![t] = <<>>]
+  /\ task' = [task EXCEPT ![t] = 0]
+  /\ pc' = [pc EXCEPT ![t] = "dfinish"]
+
 OCbRel(t) ==
   /\ pc[t] = "ocbRel"
   /\ ocb' = NoOne
-  /\ pc' = [pc EXCEPT ![t] = IF IsWrk(t) THEN "icbRel" ELSE "lockWait"]
-  /\ UNCHANGED <<cfg, task, vPool, exc, hasFile, tlock, icb, flock, vBud, vOut>>
+  /\ IF IsWrk(t)
+     THEN pc' = [pc EXCEPT ![t] = "icbRel"] /\ UNCHANGED <<task, queue, tstat>>
+     ELSE IF t \in exc                      \* the callback raised in the serial writer
+     THEN SerialRaise(t)
+     ELSE pc' = [pc EXCEPT ![t] = "lockWait"] /\ UNCHANGED <<task, queue, tstat>>
+  /\ UNCHANGED <<cfg, job, shardQ, jstat, exc, hasFile, tlock, icb, flock, vBud, vOut>>
 
 ICbRel(w) ==
   /\ IsWrk(w) /\ pc[w] = "icbRel"
   /\ icb' = [icb EXCEPT ![DrvOf(w)] = NoOne]
-  /\ pc' = [pc EXCEPT ![w] = IF w \in hasFile THEN "lockWait" ELSE "fWait"]
+  /\ pc' = [pc EXCEPT ![w] = IF w \in exc THEN "finish"          \* the callback raised: the task is over
+                             ELSE IF w \in hasFile THEN "lockWait" ELSE "fWait"]
   /\ UNCHANGED <<cfg, task, vPool, exc, hasFile, tlock, ocb, flock, vBud, vOut>>
 
 \* _thread_file(): first use in a pool thread registers the handle under files_lock
@@ -341,14 +394,20 @@ WakeBlock(t) ==
   /\ waiters' = waiters \cup {t}
   /\ UNCHANGED <<cfg, pc, task, vPool, exc, hasFile, vLocks, inFlight, oversized, vOut>>
 
-\* tensor.tofile at the tensor's offset; a failing tensor raises and writes nothing
+\* tensor.tofile (or file.write(tensor.tobytes())) at the tensor's offset
 Write(t) ==
-  /\ pc[t] = "reserved"
-  /\ IF Ob(t) \in cfg.fail
-     THEN exc' = exc \cup {t} /\ UNCHANGED file
-     ELSE file' = WriteAt(cfg, file, task[t]) /\ UNCHANGED exc
+  /\ pc[t] = "reserved" /\ Ob(t) \notin cfg.fail
+  /\ file' = WriteAt(cfg, file, task[t])
   /\ pc' = [pc EXCEPT ![t] = "releasing"]
-  /\ UNCHANGED <<cfg, task, vPool, hasFile, vLocks, vBud, cbCount>>
+  /\ UNCHANGED <<cfg, task, vPool, exc, hasFile, vLocks, vBud, cbCount>>
+
+\* a failing tensor raises (in tofile / tobytes / numpy) and writes nothing - whatever the KIND of the
+\* exception (cfg.fkind is not read): the finally clause releases the reservation, the `with` the tensor lock
+WriteFail(t) ==
+  /\ pc[t] = "reserved" /\ Ob(t) \in cfg.fail
+  /\ exc' = exc \cup {t}
+  /\ pc' = [pc EXCEPT ![t] = "releasing"]
+  /\ UNCHANGED <<cfg, task, vPool, hasFile, vLocks, vBud, vOut>>
 
 \* _ByteBudget.release in the finally clause: undo the reservation, notify_all
 Release(t) ==
@@ -367,13 +426,7 @@ TUnlock(t) ==
           /\ UNCHANGED <<task, queue, tstat>>
      ELSE \* serial driver: the exception leaves the loop, otherwise next tensor
           IF t \in exc
-          THEN /\ tstat' = [i \in 1..cfg.n |->
-                              IF i = task[t] THEN "failed"
-                              ELSE IF \E k \in DOMAIN queue[t] : queue[t][k] = i THEN "cancelled"
-                              ELSE tstat[i]]
-               /\ queue' = [queue EXCEPT ![t] = <<>>]
-               /\ task' = [task EXCEPT ![t] = 0]
-               /\ pc' = [pc EXCEPT ![t] = "dfinish"]
+          THEN SerialRaise(t)
           ELSE IF queue[t] # <<>>
           THEN /\ tstat' = [tstat EXCEPT ![task[t]] = "ok", ![Head(queue[t])] = "running"]
                /\ task' = [task EXCEPT ![t] = Head(queue[t])]
@@ -388,12 +441,35 @@ TUnlock(t) ==
 AllDone == pc[0] \in {"returned", "raised"}
 Terminated == AllDone /\ UNCHANGED vars
 
-ThreadStep(t) ==
+(***************************************************************************)
+(* The two writer kinds, each with its steps in the order of the code.     *)
+(***************************************************************************)
+\* _ExternalDataWriter._write_serial run by a shard driver (shared budget, shared lock table):
+\*   _locked_callback (outer callback lock) ; _write_tensor = tensor lock -> budget -> write -> release -> unlock
+SerialWriterStep(d) ==
+  /\ ~IsWrk(d)
+  /\ \/ OCbAcq(d) \/ CbRun(d) \/ CbFail(d) \/ OCbRel(d)
+     \/ TLock(d)
+     \/ AcqFit(d) \/ AcqOver(d) \/ AcqBlock(d) \/ WakeFit(d) \/ WakeBlock(d)
+     \/ Write(d) \/ WriteFail(d) \/ Release(d) \/ TUnlock(d)
+
+\* a pool thread of _ExternalDataWriter._write_parallel running _write_one:
+\*   callback_lock [-> outer callback lock] ; _thread_file (files_lock) ;
+\*   _write_tensor = tensor lock -> budget -> write -> release -> unlock
+PoolWriterStep(w) ==
+  /\ IsWrk(w)
+  /\ \/ ICbAcq(w) \/ OCbAcq(w) \/ CbRun(w) \/ CbFail(w) \/ OCbRel(w) \/ ICbRel(w)
+     \/ FAcq(w) \/ FRel(w)
+     \/ TLock(w)
+     \/ AcqFit(w) \/ AcqOver(w) \/ AcqBlock(w) \/ WakeFit(w) \/ WakeBlock(w)
+     \/ Write(w) \/ WriteFail(w) \/ Release(w) \/ TUnlock(w)
+
+\* pools, futures, joins
+PoolStep(t) ==
   \/ DTake(t) \/ DFinish(t) \/ Take(t) \/ Finish(t) \/ FirstFailure(t) \/ JoinInner(t)
-  \/ ICbAcq(t) \/ OCbAcq(t) \/ CbRun(t) \/ OCbRel(t) \/ ICbRel(t) \/ FAcq(t) \/ FRel(t)
-  \/ TLock(t) \/ AcqFit(t) \/ AcqOver(t) \/ AcqBlock(t) \/ WakeFit(t) \/ WakeBlock(t)
-  \/ Write(t) \/ Release(t) \/ TUnlock(t)
   \/ (t = 0 /\ (JoinAll \/ Return))
+
+ThreadStep(t) == PoolStep(t) \/ SerialWriterStep(t) \/ PoolWriterStep(t)
 
 Step == \E t \in T : ThreadStep(t)
 Next == Step \/ Terminated
@@ -447,7 +523,7 @@ InvMech ==
         pc[tlock[o]] \in {"holdLock", "budWait", "reserved", "releasing", "unlocking"} /\ Ob(tlock[o]) = o
   /\ \A t \in T : pc[t] \in {"holdLock", "budWait", "reserved", "releasing", "unlocking"} => tlock[Ob(t)] = t
   /\ waiters \subseteq {t \in T : pc[t] = "budWait"}
-  /\ (pc[0] = "returned") <=> (AllDone /\ \A i \in 1..cfg.n : cfg.obj[i] \notin cfg.fail)
+  /\ (pc[0] = "returned") <=> (AllDone /\ \A i \in 1..cfg.n : cfg.obj[i] \notin cfg.fail /\ i \notin cfg.cbfail)
 
 \* a parked waiter whose predicate holds has been notified (no lost wake-up)
 InvNoLostWakeup == \A t \in waiters : ~CanAcq(t)
